@@ -102,7 +102,7 @@ throws away because the `@charset` rule is still open. No `final`: data that mer
 
 def rstepE (I : Inner) (force : Bool) : RSt → List Nat → Option (RSt × List Nat)
   | .waiting enc bb, input =>
-    match choose enc force (bb ++ input) with
+    match readerEnc enc force (bb ++ input) with
     | none => some (rstep I force (.waiting enc bb) input)
     | some E => if errAt E (bb ++ input) false then none else some (rstep I force (.waiting enc bb) input)
   | .reading E c, input =>
@@ -137,7 +137,7 @@ def writeAllE (I : InnerEnc) (given : Option Name) (cs : List (List Nat)) : Opti
 
 /-- the inner decoder of the encoding the reader settles on raises on the data `d` (non-final) -/
 def rerr (given : Option Name) (force : Bool) (d : List Nat) : Bool :=
-  match choose given force d with
+  match readerEnc given force d with
   | none => false
   | some E => errAt E d false
 
